@@ -97,7 +97,8 @@ class Oracle(simcheck.BaseOracle):
                     sig = "live-trades-mismatch"
                     if extra and not missing:
                         # charged although every order is complete: is the last one a VIOLATION (refused request on a live order)?
-                        lastv = all(any(o.status is not None and o.status.name == "VIOLATION" and len(o.status_log) > 1 for o in by_id[x].orders) for x in extra if x in by_id)
+                        lastv = all(any(o.status is not None and o.status.name == "VIOLATION" and any(z.name != "VIOLATION" for z in o.status_log)
+                                        for o in by_id[x].orders) for x in extra if x in by_id)
                         stale = all(by_id[x].status.name == "COMPLETE" for x in extra if x in by_id)
                         sig = "locked-out-by-violation-of-live-order" if lastv else ("completed-trade-reused-not-reopened" if stale else "locked-out")
                     elif missing:
